@@ -160,6 +160,23 @@ class NormPrim:
             for k in range(K):
                 M.eq("norm_prim/unit" + tag((c, k)), norm[c, k] * norm[c, k] * basisfn.self_overlap_prim(M.SF, sexps[k], comp), 1)
                 M.eq("norm_prim/value" + tag((c, k)), norm[c, k], basisfn.prim_norm(M.SF, sexps[k], comp))
+        # the property is a function of the shell's CURRENT exponents: after an in-place update of the exponent array the
+        # shell holds, and after an assignment through the setter, a fresh read gives the norms of the new exponents
+        e_new = M.pos("a_new")
+        sh.exps[0] = e_new
+        norm2 = sh.norm_prim_cart
+        s_new = M.to_spec(M.array([e_new]))[0]
+        for c, comp in enumerate(comps):
+            M.eq("norm_prim/after-in-place-update" + tag((c, 0)), norm2[c, 0], basisfn.prim_norm(M.SF, s_new, comp))
+            for k in range(1, K):
+                M.eq("norm_prim/after-in-place-update" + tag((c, k)), norm2[c, k], basisfn.prim_norm(M.SF, sexps[k], comp))
+        exps3 = M.vec("b", K, "pos")
+        sh.exps = exps3
+        norm3 = sh.norm_prim_cart
+        s3 = M.to_spec(exps3)
+        for c, comp in enumerate(comps):
+            for k in range(K):
+                M.eq("norm_prim/after-setter" + tag((c, k)), norm3[c, k], basisfn.prim_norm(M.SF, s3[k], comp))
 
 
 def sym_shell_pair(M, la, lb, Ka, Kb, Ma, Mb, same_centre=False, types=None):
